@@ -26,10 +26,11 @@ PLAN = dict(
              "(x86-64: 9 offsets; quick tier: complete for m,n <= 4, every 23rd shape at 3 of the 9 offsets beyond; thorough: complete), plus random "
              "substitutions of up to 40 variables (rotations through the spill area, fan-out >= 3, dropped objects); each is executed on the ISA "
              "semantics from 4 initial heaps (unique / shared / null / aliased objects); non-trivial = at least one move or count update emitted",
-        explanation="theorems: generic parallel-move correctness and termination for all graphs; the x86-64 instantiation on the ISA semantics; "
+        explanation="theorems: generic parallel-move correctness and termination for all graphs; the x86-64, AArch64 and RISC-V instantiations on "
+                    "their ISA semantics (moves, share/erase, and the whole Substitute: C11_<backend>_substitute_simultaneous); "
                     "the move graph of every Substitute has in-degree <= 1; reference-count updates emitted exactly once per object. "
                     "correspondence: model output = Rust output; ALWAYS the emitted instructions are executed on the ISA semantics against "
                     "the simultaneous assignment, the reference counts, the deferred-free list and the frame",
         assumptions=["the recording backend sees exactly the calls the generic code makes (public traits of axcut2backend)",
-                     "the ISA semantics of Sem/X86Sem.v (shared with C06) is the meaning of the emitted x86-64 instructions"],
+                     "the ISA semantics of Sem/X86Sem.v (shared with C06), Sem/A64Sem.v (C07), Sem/RVSem.v (C08) are the meaning of the emitted instructions"],
     )
